@@ -215,7 +215,7 @@ class BioSeq():
         self.data = str(data).upper()
         if hasattr(data, 'meta'):
             meta = data.meta
-        elif 'meta' in data:
+        elif not isinstance(data, str) and 'meta' in data:
             meta = data['meta']
         elif meta is None:
             meta = {}
